@@ -126,7 +126,7 @@ func checkLists(e error, m *tm.Node) string {
 
 // c19Ops are the constructors that contribute to (or interrupt) the lists.
 var c19Ops = []string{"WithHint", "WithHintf", "WithDetail", "WithIssueLink", "WithTelemetry", "WithTelemetry2",
-	"WithContextTags", "WithContextTags_int2", "WithContextTags_strint", "WithAssertionFailure", "Wrap", "Handled", "WithSecondaryError", "Join2", "ut.UnwrapW", "WithStack"}
+	"WithContextTags", "WithContextTags_int2", "WithContextTags_strint", "WithContextTags_twice", "WithIssueLink_detailonly", "WithIssueLink_urlonly", "WithAssertionFailure", "Wrap", "Handled", "WithSecondaryError", "Join2", "ut.UnwrapW", "WithStack"}
 var c19Leaves = []string{"GoNew", "Unimplemented", "Unimplementedf_nolink", "AssertionFailedf", "New"}
 
 // rawStrings assigns the small raw alphabet (no tokens, so that texts can
